@@ -591,15 +591,24 @@ func (s *Store[K, V]) removeEntry(entry *Entry[K, V], reason RemoveReason) {
 	_, index := s.index(entry.key)
 	shard := s.shards[index]
 
+	// set when the shard lock is already held (EXPIRED)
+	locked := false
 	if reason == EXPIRED {
-		// entry might updated already
-		// update expire filed are protected by shard mutex
+		// entry might updated already. Deadlines are written under the shard
+		// mutex, so the decision and the removal from the map below are one
+		// step under that mutex: a Set that extends the deadline either comes
+		// first and keeps the entry, or finds the key gone and stores a new one.
+		// Without the mutex the Set could land in between and its value would
+		// leave the cache as expired although its deadline lies in the future.
+		shard.mu.Lock()
 		if expire := entry.expire.Load(); expire == 0 || expire > s.timerwheel.clock.NowNano() {
 			// still resident: it must not be flagged removed, otherwise the
 			// pending update event (re-schedule, cost change) and all later
 			// events for it would be ignored
+			shard.mu.Unlock()
 			return
 		}
+		locked = true
 	}
 	entry.flag.SetRemoved(true)
 
@@ -637,7 +646,9 @@ func (s *Store[K, V]) removeEntry(entry *Entry[K, V], reason RemoveReason) {
 				s.secondaryCache.HandleAsyncError(err)
 			}
 		}
-		shard.mu.Lock()
+		if !locked {
+			shard.mu.Lock()
+		}
 		deleted := shard.delete(entry)
 		shard.mu.Unlock()
 		if deleted {
